@@ -117,6 +117,7 @@ func (s *Service) Start(ctx context.Context) error {
 		return ErrServiceAlreadyStarted
 	}
 
+	launched := false
 	s.doStart.Do(func() {
 		defer s.isStarted.Store(true)
 		ec := &s.ec
@@ -183,7 +184,15 @@ func (s *Service) Start(ctx context.Context) error {
 			ec.Add(s.Run(ctx))
 		}()
 		verifAt("srv.Service.Start.launched")
+		launched = true
 	})
+
+	if !launched {
+		// isRunning was false although the service had been
+		// launched by an earlier call: it has already returned.
+		s.isRunning.Store(false)
+		return ErrServiceReturned
+	}
 
 	return nil
 }
